@@ -20,7 +20,6 @@ import (
 // on logical steps by the lap monitor (vf_c18_kit_test.go): a full lap of the ring without a
 // replica being added means the selection loop's state repeats forever.
 
-const vfc19Backstop = 180 * time.Second
 
 type vfc19Cfg struct {
 	Variant  string   `json:"variant"` // ketama | hashmod | ketama+shuffle
@@ -88,10 +87,10 @@ func TestVF_C19(t *testing.T) {
 	r := vfkit.Start(t, "C19")
 	defer r.Finish()
 	// Bounds per tier (construction cost grows ~ n^3 per layout under -race):
-	// quick:    all variants for n <= 6; ketama and hashmod only for n = 7, 8; naming blocks (+unnamed)
-	// thorough: ketama and hashmod for n <= 12, shuffle variants for n <= 8; namings blocks, interleaved (+unnamed)
+	// quick:    all variants for n <= 5; ketama and hashmod only for n = 6..8; naming blocks (+unnamed)
+	// thorough: ketama and hashmod for n <= 12, shuffle variants for n <= 7; namings blocks, interleaved (+unnamed)
 	maxN := r.N(8, 12)
-	maxShuffleN := r.N(6, 8)
+	maxShuffleN := r.N(5, 7)
 	r.Rule(fmt.Sprintf("case = (multiset of zone sizes with 1..%d endpoints over <=4 zones) x endpoint naming {blocks%s; unnamed for one zone} x RF 1..n x "+
 		"{ketama, hashmod; for n<=%d also ketama+shuffle-sharding with shard size in %s, zone-aware and zone-unaware, up to 3 tenants}, production SectionsPerNode; "+
 		"oracle: NewMultiHashring (and, for a ring it returns, GetN for n<RF incl. the per-tenant sub-ring build of shuffle sharding) returns a ring/endpoint or an error without "+
